@@ -723,6 +723,91 @@ def r10(ctx):
         ctx.emit('C04-R10', True, BASEDEMUX, None, f'{n} delegating demultiplex calls all forward **kwargs / library', key='library-forwarded')
 
 
+def codec_model(ctx):
+    """TaggedRecord run by the abstract interpreter on model tags.  (a) a quality string of every phred character 33..126 stored under a phred tag is the letter table at
+    min(max(0, ord - 33), 51), nothing else is done to it; decoding gives back the saturated characters; a text tag is stored cleaned exactly once; (b) the read name asFastq
+    builds is split back into the same fields by fromTaggedBamRecord - also when the last field ends in 1, 2 or / - and (c) by parse_scmo_header (a demultiplexed FASTQ
+    that is demultiplexed again), without encoding the values a second time.  Returns (ok, cases, witness) or None outside the interpreted subset."""
+    import string
+    from ..consteval import module_scope, Evaluator, Instance, Unfoldable, Raised
+    from .slots import FQITER
+    try:
+        env = module_scope(ctx.ix, BASEDEMUX)
+        env['fastqIterator.FastqRecord'] = module_scope(ctx.ix, FQITER)['FastqRecord']
+
+        def ev(text, **kw):
+            e = dict(env)
+            e.update(kw)
+            return Evaluator(e, budget=400000).ev(ast.parse(text, mode='eval').body, e)
+        letters = string.ascii_letters
+        q = ''.join(chr(c) for c in range(33, 127))
+        want_enc = ''.join(letters[min(max(0, ord(c) - 33), 51)] for c in q)
+        n = 0
+        rec = ev('TaggedRecord(TagDefinitions)')
+        ev("rec.addTagByTag('RQ', q)", rec=rec, q=q)
+        n += 1
+        if rec.attrs['tags'].get('RQ') != want_enc:
+            return False, n, {'stored under the phred tag RQ': rec.attrs['tags'].get('RQ'), 'expected (letter table at min(ord-33, 51))': want_enc, 'qualities': q}
+        ev("rec.addTagByTag('RQ', q, decodePhred=True)", rec=rec, q=want_enc)
+        n += 1
+        want_dec = ''.join(chr(min(ord(c) - 33, 51) + 33) for c in q)
+        if rec.attrs['tags'].get('RQ') != want_dec:
+            return False, n, {'decoded RQ': rec.attrs['tags'].get('RQ'), 'expected': want_dec}
+        for val in ('PLATE12', 'lib-1_a+b', 'we ird;na:me/1', 'ACGT'):
+            clean = ev('fqSafe(v)', v=val)
+            ev("rec.addTagByTag('LY', v)", rec=rec, v=val)
+            n += 1
+            if rec.attrs['tags'].get('LY') != clean or ev('fqSafe(v)', v=clean) != clean:
+                return False, n, {'text tag LY set to': val, 'stored': rec.attrs['tags'].get('LY'), 'expected (cleaned once)': clean}
+            ev("rec.addTagByTag('LY', v, make_safe=False)", rec=rec, v=val)
+            if rec.attrs['tags'].get('LY') != val:
+                return False, n, {'text tag LY set with make_safe=False to': val, 'stored': rec.attrs['tags'].get('LY')}
+        ev("rec.addTagByTag('aa', 5)", rec=rec)
+        if rec.attrs['tags'].get('aa') != '5':
+            return False, n, {'tag aa set to the integer 5': rec.attrs['tags'].get('aa'), 'expected': '5'}
+        # (b), (c): the name written is the name read
+        for last in ('PLATE12', 'mESC_rep2', 'LIB-1', 'x21', 'BULK-A'):
+            fields = [('Is', 'NS500'), ('RN', '7'), ('BC', 'ACGTACGT'), ('RX', 'TTGCAA'), ('RQ', 'II#;:~'), ('bi', '12'), ('LY', last)]
+            a = ev('TaggedRecord(TagDefinitions)')
+            for k_, v_ in fields:
+                ev('rec.addTagByTag(k, v)', rec=a, k=k_, v=v_)
+            want = dict(a.attrs['tags'])
+            text = ev("rec.asFastq('ACGT', '+', 'IIII')", rec=a)
+            name = text.split('\n')[0][1:]
+            if name != ';'.join(f'{k_}:{v_}' for k_, v_ in want.items()):
+                return False, n, {'tags': want, 'read name written': name}
+            b = ev('TaggedRecord(TagDefinitions)')
+            ev('rec.fromTaggedBamRecord(r)', rec=b, r=Instance(attrs={'query_name': name}))
+            n += 1
+            if dict(b.attrs['tags']) != want:
+                diff = {k_: (want.get(k_), b.attrs['tags'].get(k_)) for k_ in set(want) | set(b.attrs['tags']) if want.get(k_) != b.attrs['tags'].get(k_)}
+                return False, n, {'read name': name, 'decoded by fromTaggedBamRecord (field: written, decoded)': diff}
+            c = ev('TaggedRecord(TagDefinitions)')
+            ev('rec.parse_scmo_header(r, None, None)', rec=c, r=Instance(attrs={'header': '@' + name}))
+            n += 1
+            if dict(c.attrs['tags']) != want:
+                diff = {k_: (want.get(k_), c.attrs['tags'].get(k_)) for k_ in set(want) | set(c.attrs['tags']) if want.get(k_) != c.attrs['tags'].get(k_)}
+                return False, n, {'FASTQ header': '@' + name, 'decoded by parse_scmo_header (field: written, decoded)': diff}
+        return True, n, None
+    except (Unfoldable, Raised, Exception) as e_:
+        ctx._codec_model_error = f'{type(e_).__name__}: {str(e_)[:80]}'
+        return None
+
+
+@rule('C04', 'C04-R12', 'the tag codec as a whole, run by the abstract interpreter: phred tags are stored through the letter table only (all 94 characters, saturating), text tags cleaned once, '
+                        'and the read name asFastq writes is split into the same fields by fromTaggedBamRecord and by parse_scmo_header (names ending in 1 / 2 / -1 included)')
+def r12(ctx):
+    res = codec_model(ctx)
+    f = ctx.fn(BASEDEMUX, 'TaggedRecord.addTagByTag')
+    if res is None:
+        ctx.emit('C04-R12', False, BASEDEMUX, f, f'the tag codec is outside the interpreted subset ({getattr(ctx, "_codec_model_error", "")})', key='codec-model', undecided=True)
+        return
+    ok, n, w = res
+    ctx.counters['interpreted_cases'] = ctx.counters.get('interpreted_cases', 0) + n
+    ctx.emit('C04-R12', ok, BASEDEMUX, f, f'{n} model cases: encode / decode / clean / name round trip agree with the specification' if ok else f'tag codec model: {w}', key='codec-model', witness=w,
+             what='TaggedRecord: a value is not stored / recovered as written')
+
+
 META = {
     'text': ('Decides agreement of the tables the codec halves rely on: the quality encoder is total and saturating over phred 33..126 (clamped table '
              'index or a folded translation table covering every character) and the decoder inverts the same table/offset; every tag the demultiplexer '
